@@ -510,7 +510,7 @@ Fixpoint ser (e : env) (fuel : nat) (t : ty) (v : val) {struct fuel} : option by
               let parts :=
                 map (fun fd =>
                        match rget (f_label fd) vs with
-                       | None => None
+                       | None => if f_skip_none fd || f_skip_ser fd then Some [] else None
                        | Some fv =>
                            if emitted fd fv then
                              match ser e k (f_ty fd) fv with
